@@ -5,6 +5,13 @@ import sys
 from ..common import LEAN, VERIF, write_if_changed
 
 PROP_MODS = ['Stbem.Props.C05']
+
+
+def extra_audit_mods():
+    """The generated per-entry certificate modules: their theorems are obligations too (kernel evaluations)."""
+    d = os.path.join(LEAN, 'Stbem', 'Gen', 'RuleChecks')
+    return sorted('Stbem.Gen.RuleChecks.' + f[:-5] for f in os.listdir(d) if f.endswith('.lean'))
+
 RULE = ('complete enumeration: every branch of the seven if/elif tables of src/quadrature_rules.py, every degree '
         'of its advertised range, on the literals as written (1e-30 relative) and on their binary64 roundings '
         '(1e-13 relative; the rounding itself certified). The Lean sources Gen/Rules.lean and Gen/RuleChecks/* are '
